@@ -257,6 +257,14 @@ class C08(ValCheck):
             "with the reference; distinct = digest(recipe, options); non-trivial = >= 1 NPU convolution with weights")
 
     def gen_recipe(self, r):
+        if r.random() < 0.06:
+            # an unrolled LSTM: the same eight weight tensors are encoded once per time step (and batch), i.e. mostly served from the cache
+            tm = r.random() < 0.5
+            nb, nt, nf = r.choice([1, 2, 3]), r.choice([2, 3, 4]), r.choice([4, 8, 20])
+            L = dict(op="LSTM", units=r.choice([4, 8, 16, 24]), q=[netgen.f32(1 / 128), 0], time_major=tm, wscale=netgen.f32(r.choice([0.002, 0.004])),
+                     cell_pow=r.choice([10, 11]), cell_clip=r.choice([0.0, 8.0]), seed=r.randrange(1 << 30), **{"in": [0]})
+            return dict(name="net", inputs=[dict(shape=[nt, nb, nf] if tm else [nb, nt, nf], dtype="int8", q=list(netgen._rand_q(r, "int8")))], layers=[L], outputs=[1],
+                        dup_names=False)
         H, W, C = r.choice([(8, 8, 8), (6, 6, 16), (10, 4, 32), (4, 4, 64), (12, 12, 4)])
         dtype = r.choice(["int8", "int8", "int8", "uint8", "uint8", "int16"])
         inp_q = list(netgen._rand_q(r, dtype))
